@@ -175,6 +175,17 @@ func c07Queries(thorough bool) []c07Q {
 			out = append(out, c07Q{&qQuery{items: gs, from: from, groupBy: gb, limit: -1, offset: -1}, "group-by/no-aggregate"})
 		}
 	}
+	// an alias that collides with the name of another grouped column: the statement may be rejected
+	// as ambiguous, but if it is answered every grouping column must take part
+	for _, v := range [][]qItem{
+		{{kind: "col", col: qRef{"", "g1"}, alias: "g2"}, {kind: "col", col: qRef{"", "g2"}}, {kind: "count*"}},
+		{{kind: "col", col: qRef{"", "g2"}, alias: "g1"}, {kind: "col", col: qRef{"", "g1"}}, {kind: "count", col: qRef{"", "v"}}},
+		{{kind: "count*"}, {kind: "col", col: qRef{"", "g1"}, alias: "g2"}, {kind: "col", col: qRef{"t", "g2"}}},
+	} {
+		for _, gb := range [][]qRef{{{"", "g1"}, {"", "g2"}}, {{"", "g2"}, {"", "g1"}}} {
+			out = append(out, c07Q{&qQuery{items: v, from: from, groupBy: gb, limit: -1, offset: -1, mayReject: true}, "group-by/alias-collides-with-column"})
+		}
+	}
 	// on top of a JOIN: group t by g1, counting matching rows of a second table
 	joins := []qJoin{{table: "t"}, {kind: "JOIN", table: "s", on: &qCond{atoms: []qAtom{{qc("t", "g2"), qc("s", "k"), "="}}}}}
 	ljoins := []qJoin{{table: "t"}, {kind: "LEFT JOIN", table: "s", on: &qCond{atoms: []qAtom{{qc("t", "g2"), qc("s", "k"), "="}}}}}
